@@ -173,7 +173,8 @@ func (b *Buffer) AddRunes(text []rune, itemOffset, itemLength int) {
 	if s > len(text) {
 		s = len(text)
 	}
-	b.context[1] = text[itemOffset+itemLength : s]
+	// copy it, as the items and the pre-context are: the caller may reuse [text]
+	b.context[1] = append(b.context[1][:0], text[itemOffset+itemLength:s]...)
 }
 
 // GuessSegmentProperties fills unset buffer segment properties based on buffer Unicode
